@@ -50,7 +50,8 @@ def determinism(argv):
     for (k, x, y) in bad[:10]:
         print("  DIVERGENT %s:\n    A=%s\n    B=%s" % (k, x, y))
     out = {"cases": len(tasks), "runs": runs, "divergent": len(bad), "seed": seed, "modules": MODS}
-    with open(os.path.join(build.VERIF, "evidence", "selftest_determinism.json"), "w") as fh:
+    os.makedirs(os.path.join(build.VERIF, "selftest_results"), exist_ok=True)
+    with open(os.path.join(build.VERIF, "selftest_results", "determinism.json"), "w") as fh:
         json.dump(out, fh, indent=1)
     return 0 if not bad else 1
 
@@ -119,6 +120,9 @@ def sensitivity(argv):
     shutil.rmtree(root, ignore_errors=True)
     missed = [r for r in res if r[2] != "caught"]
     print("sensitivity: %d edits, %d caught, %d not" % (len(res), len(res) - len(missed), len(missed)))
+    os.makedirs(os.path.join(build.VERIF, "selftest_results"), exist_ok=True)
+    with open(os.path.join(build.VERIF, "selftest_results", "sensitivity.json"), "w") as fh:
+        json.dump([{"property": p_, "edit": w_, "result": r_[:80]} for (p_, w_, r_) in res], fh, indent=1)
     return 0 if not missed else 1
 
 
